@@ -10,16 +10,19 @@ Open Scope list_scope.
 Notation length := List.length.
 
 (* ---------------------------------------------------------------- reserved header names *)
-(* exactly the names SFile._make_header deletes or overwrites *)
+(* exactly the names SFile._make_header deletes (any spelling of the five) or overwrites *)
 Definition reserved_keys : list (list byte) := deleted_keys ++ [B "_DTYPE"; B "_VERSION"].
-Definition reserved (k : list byte) : bool := existsb (bytes_eqb k) reserved_keys.
+Definition reserved (k : list byte) : bool :=
+  is_stripped k || existsb (bytes_eqb k) [B "_DTYPE"; B "_VERSION"].
 
-(* A user header may use the reserved names (they are dropped or overwritten) but no OTHER
-   spelling that the case-insensitive reader (_match_key) would take for the delimiter or the
-   dtype of the file: those spellings are the reserved names too ("case does not matter"). *)
+(* What is left of the carve-out after /repo 04e3f20: a user key that spells _dtype in another way
+   than _DTYPE.  The reader looks the dtype up case-insensitively and takes the FIRST match in dict
+   order; the real code is safe because pformat sorts the keys (_DTYPE sorts before every other
+   spelling), but the order of the evaluated dict is not part of the contract H_pf, so the abstract
+   theorem keeps this premise (Properties.C01_roundtrip_needs_user_hdr_ok); the harness generates
+   such keys and the real code is judged on them by the checker. *)
 Definition user_key_ok (k : list byte) : bool :=
-  (negb (bytes_eqb (lower k) (B "_delim")) || bytes_eqb k (B "_delim") || bytes_eqb k (B "_DELIM"))
-  && (negb (bytes_eqb (lower k) (B "_dtype")) || bytes_eqb k (B "_DTYPE")).
+  negb (bytes_eqb (lower k) (B "_dtype")) || bytes_eqb k (B "_DTYPE").
 
 Section PySpec.
   Variable pyval : Type.
